@@ -13,7 +13,7 @@ def load():
         m = json.load(open(d))
         det = m.get("detected", "")
         muts.append({"id": "seed:" + m["id"], "patch": os.path.join(os.path.dirname(d), "patch.diff"), "props": [m["property"]],
-                     "expect": "violation" if det.startswith("VIOLATION") else "undecided", "why": m.get("needs_to_manifest", "")})
+                     "expect": m.get("expect") or ("violation" if "VIOLATION" in det else "undecided"), "why": m.get("needs_to_manifest", "")})
     return muts
 
 
